@@ -71,7 +71,8 @@ Definition isort (l : list Z) : list Z := fold_right insert [] l.
 
 (* ------------------------------------------------------------------ rules *)
 (* a rule object is identified by its strategy and its parent class; RVer = a
-   VerificationRule, REmpty = the rule of forest.empty_strategy *)
+   VerificationRule, REmpty = the rule of EmptyStrategy (forest.empty_strategy, and the
+   searcher's own rule for an empty start class) *)
 Inductive rkind := RPlain | RVer | REmpty.
 Record rule := mkR { r_sid : Z; r_parent : Z; r_kind : rkind }.
 
@@ -92,7 +93,7 @@ Inductive event :=
 Inductive status := Running | OutOfFuel | Failed (code : Z).
 (* codes: 1 KeyError, 2 IndexError (class database), 5 no recorded is_verified answer left,
    6 IndexError on rule.children[0] / end_labels[0], 7 StrategyDoesNotApply raised by
-   empty_strategy(comb_class) in RuleDBForest._add_empty_rule, 8 rule without children object *)
+   EmptyStrategy()(comb_class) in RuleDBForest._add_empty_rule / __init__, 8 rule without children object *)
 
 Record st := mkSt {
   cdb : @db Z;
@@ -560,9 +561,20 @@ Definition init_state (ans : list bool) : st :=
   mkSt init [] [] [] [] ans [] [] [] [] Running.
 
 (* CombinatorialSpecificationSearcher.__init__ *)
+(* if self.classdb.is_empty(start_class, self.start_label):
+       self.classqueue.set_stop_yielding(self.start_label)
+       self.add_rule(self.start_label, (), EmptyStrategy()(start_class))
+   (EmptyStrategy()(start_class) asks the class itself and raises StrategyDoesNotApply otherwise) *)
+Definition empty_start (F : nat) (s : st) (start sl : Z) : st :=
+  let '(s1, e) := is_empty_cl s start (Some sl) in
+  if e then
+    let s2 := emit (EvQStop sl) s1 in
+    if oracle start then add_rule F s2 sl [] (mkR (-1) start REmpty) else fail 7 s2
+  else s1.
+
 Definition searcher_init (F : nat) (ans : list bool) (start : Z) : st :=
   let '(s1, sl) := get_label_c (init_state ans) start in
-  let s2 := emit (EvQAdd sl) s1 in
+  let s2 := empty_start F (emit (EvQAdd sl) s1) start sl in
   let s3 := try_verify (add_rule F) s2 start sl in
   if has_sym then symmetry_expand (add_rule F) s3 start sl else s3.
 
